@@ -43,6 +43,7 @@ GRID = [round(0.05 * i, 2) for i in range(0, 33) if (i % 10) != 0] + \
 
 def valid_response(rnd, gen):
     host = rnd.choice(["192.168.1.%d" % rnd.randint(2, 250), "10.0.0.7", "at.local", "",
+                       "10.1.2.3",   # (the address unicast searches are directed at)
                        # long ones: a fully qualified name, an IPv6 address written out
                        "console-living-room.home.example.org",
                        "fe80:0000:0000:0000:0202:b3ff:fe1e:8329"])
@@ -132,6 +133,18 @@ def cases(tier, seed):
                           [0.2, gen, b"10.0.0.20," + tail, ["10.0.0.20", 49005]],
                           [0.3, gen, b"192.168.1.20," + tail, ["192.168.1.20", 49005]]],
                "unicast": None}
+    # a unicast search: the addressed console answers with that very address, and again - or
+    # another console does - later in the same interval
+    for gen in (4, 5):
+        tail = (b"SER-9,AirTouch%d,87654321" % gen) + (b",Flat" if gen == 5 else b"")
+        for t1, t2 in ((0.01, 0.15), (0.2, 0.49), (0.6, 0.9)):
+            yield {"script": [[t1, gen, b"10.1.2.3," + tail, ["10.1.2.3", 49005]],
+                              [t2, gen, b"10.0.0.7," + tail, ["10.0.0.7", 49005]]],
+                   "unicast": "10.1.2.3"}
+            yield {"script": [[t1, gen, b"10.1.2.3," + tail, ["10.1.2.3", 49005]],
+                              [t2, gen, b"10.1.2.3,SER-10," + tail.split(b",", 1)[1],
+                               ["10.1.2.3", 49005]]],
+                   "unicast": "10.1.2.3"}
     # a street of consoles: dozens of distinct valid answers of one model within one interval
     for gen in (4, 5):
         for count in (17, 40, 120):
